@@ -186,6 +186,18 @@ def gen_a(seed):
             ents.append(fe)
             mods.append(fe)
             files["facade.f90"] = "\n".join([f"module {fname_}", f"!! doc {ft}", f"use {mods[0].name}, only: " + ", ".join(items), "implicit none", f"end module {fname_}"]) + "\n"
+    if rng.random() < 0.4:
+        # a module with a separate module procedure and a submodule (named to sort before A's modules): the description lists modules only
+        smod, ssub = f"asep{sx}", f"aab{sx}"
+        tm, tp_ = T(), T()
+        sm_e = Ent("A", smod, "module", smod, "public", tm)
+        ents.append(sm_e)
+        mods.append(sm_e)
+        ents.append(Ent("A", smod, "interface", f"sepp{sx}", "public", tp_))
+        files["sep.f90"] = "\n".join([f"module {smod}", f"!! doc {tm}", "implicit none", "interface", f"module subroutine sepp{sx}(x)", f"!! doc {tp_}", "integer, intent(in) :: x",
+                                       f"end subroutine sepp{sx}", "end interface", f"end module {smod}",
+                                       f"submodule ({smod}) {ssub}", "!! doc", "contains", f"module subroutine sepp{sx}(x)", "!! impl doc", "integer, intent(in) :: x",
+                                       f"end subroutine sepp{sx}", f"end submodule {ssub}"]) + "\n"
     chain = rng.random() < 0.4
     if chain:
         # A itself is documented against an externalised project A0 and extends one of its types: entities that A only imports
@@ -249,6 +261,7 @@ def gen_b(seed, A):
     usable_mods = [m for m in A["modules"] if m is not local_clash_mod and by_mod.get(m.name)]
     nb = rng.randint(1, 3)
     mod_info = []
+    all_visible = []
     overrides = []
     for bi in range(nb):
         bname = f"bm{sx}_{bi}"
@@ -262,7 +275,7 @@ def gen_b(seed, A):
         mods = rng.sample(usable_mods, min(len(usable_mods), rng.randint(1, 2))) if usable_mods else []
         for m in mods:
             pub = by_mod[m.name]
-            style = rng.choice(["all", "only", "only_rename", "rename"])
+            style = rng.choice(["all", "only", "only_rename", "rename", "two_only"])
             if style == "rename":
                 # rename list without ONLY: everything public comes in, the renamed entities only under their local names
                 if any(e.name.lower() in visible for e in pub):
@@ -283,7 +296,18 @@ def gen_b(seed, A):
                     uses.append(f"use {m.name}")
                     for e in pub:
                         visible[e.name.lower()] = e
-            if style not in ("all", "rename"):
+            if style == "two_only":
+                # one USE statement per group of names, for one module
+                pick = [e for e in rng.sample(pub, min(len(pub), rng.randint(2, 4))) if e.name.lower() not in visible]
+                if len(pick) >= 2:
+                    k = rng.randint(1, len(pick) - 1)
+                    uses.append(f"use {m.name}, only: " + ", ".join(e.name for e in pick[:k]))
+                    uses.append(f"use {m.name}, only: " + ", ".join(e.name for e in pick[k:]))
+                    for e in pick:
+                        visible[e.name.lower()] = e
+                else:
+                    style = "only"
+            if style not in ("all", "rename", "two_only"):
                 pick = [e for e in rng.sample(pub, min(len(pub), rng.randint(1, 3))) if e.name.lower() not in visible]
                 items = []
                 for e in pick:
@@ -308,8 +332,9 @@ def gen_b(seed, A):
         cand = [e for e in a_pub if e.name.lower() not in visible and e.kind in ("subroutine", "type")]
         # (an entity that this module imports under another name is the typical clash: the original name is free for B's own entity)
         away = [e for e in cand if any(v is e for v in visible.values())]
-        if cand and rng.random() < (0.9 if away else 0.6):
-            e = rng.choice(away or cand)
+        elsewhere = [e for e in cand if any(e.name.lower() in vis_ and vis_[e.name.lower()] is e for vis_ in all_visible)]  # imported by another module of B
+        if cand and rng.random() < (0.9 if (away or elsewhere) else 0.6):
+            e = rng.choice(away or elsewhere or cand)
             t = T()
             if e.kind == "subroutine":
                 contains += [f"subroutine {e.name}(q)", f"!! doc {t}", "real :: q", f"end subroutine {e.name}"]
@@ -387,6 +412,7 @@ def gen_b(seed, A):
         L += [doc] + uses + ["implicit none"] + decl + (["contains"] + contains if contains else []) + [f"end module {bname}"]
         files[f"b{bi}.f90"] = "\n".join(L) + "\n"
         mod_info.append((bi, bt, set(visible), own))
+        all_visible.append(dict(visible))
     # a bare [[name]] in the documentation of ANOTHER module of B: not found among that module's own contents, so the project-wide
     # search decides - B's own entity must come before A's entity of the same name
     own_count = {}
@@ -398,7 +424,7 @@ def gen_b(seed, A):
             if bj == bi:
                 continue
             for n, oe in own.items():
-                if own_count[n] == 1 and n not in vis2 and n not in own2:
+                if own_count[n] == 1 and n not in own2:  # (also when that module imports A's entity of the name: a reference is not a use)
                     files[f"b{bj}.f90"] = files[f"b{bj}.f90"].replace(f"!! doc {bt2}", f"!! doc {bt2} [[{oe.name}]]", 1)
                     refs.append({"src": bt2, "via": "doc_link_to_own_entity_of_another_module", "text": oe.name, "target": oe, "form": "plain_elsewhere"})
     return {"files": files, "refs": refs, "clashes": clashes, "ents": ents, "overrides": overrides}
@@ -662,10 +688,18 @@ def case(arg):
                 for e2 in B["ents"]:  # ... and B's own entities come first
                     if e2.tracer and e2.name.lower() == tgt.name.lower():
                         also += [("B", p) for p in pages_of(b_pages, e2)]
-            if not tp:
+            b_same = [e2 for e2 in B["ents"] if e2.tracer and e2.name.lower() == tgt.name.lower() and e2.kind != "variable"] if (r["via"] == "doc_link" and r.get("form") in ("plain", "plain_ext_class") and "ext_class" not in r.get("form", "")) else []
+            if b_same:
+                # B defines an entity of that name itself: a bare reference is B's, wherever it is written
+                also = [("B", p) for e2 in b_same for p in pages_of(b_pages, e2)]
+                tp = []
+            if not tp and not (b_same and also):
                 # the target has no page of its own (e.g. not displayed in A): nothing to link to
                 continue
             src_pages = [p for p, info in b_pages.items() if re.search(r"\b%s\b" % re.escape(r["src"]), info["text"])]
+            own_pages = [p for p in src_pages if not p.startswith("lists" + os.sep) and p != "index.html"]
+            if own_pages and r["via"].startswith("doc_link"):
+                src_pages = own_pages  # (list pages show the summaries of every entity: a link found there may belong to a neighbour)
             found = False
             if not (r["via"] == "doc_link" and r.get("form") in ("plain", "plain_ext_class")):
                 also = []
